@@ -325,7 +325,7 @@ func applyAct(e *Edge, root ygot.GoStruct, sch *yang.Entry, pkg *reg.Pkg, x *con
 
 func typeClass(x *conc.Ctx, ap []string) (keyTypes, leafType string) {
 	steps, err := x.Resolve(ap)
-	if err != nil {
+	if err != nil || len(steps) == 0 {
 		return "", ""
 	}
 	var kt []string
@@ -590,7 +590,9 @@ func runTreeEdge(e *Edge, pkg *reg.Pkg, x *conc.Ctx, enc, prop string, res *rep.
 	got := conc.Restrict(abs.Project(root, pkg), x.V)
 	res.Eval(1)
 	res.Count("op_"+e.Act.Op, 1)
-	res.Sample(map[string]interface{}{"pkg": pkg.Name, "variant": x.V.Name, "op": e.Act.Op, "path": pathString(path), "value": want, "enc": enc, "pre": pre.Lines(), "post": got.Lines()})
+	if len(pre.Lines()) >= 3 && res.Evaluated%97 == 0 {
+		res.Sample(map[string]interface{}{"pkg": pkg.Name, "variant": x.V.Name, "op": e.Act.Op, "path": pathString(path), "value": want, "enc": enc, "pre": pre.Lines(), "post": got.Lines()})
+	}
 	checkStep(e, pkg, x, enc, prop, root, sch, path, want, callErr, pan, pre, got, exp, tc, res)
 }
 
